@@ -1,7 +1,7 @@
 (** C02 — The session self-heals: never stuck, nothing in the past blocks re-establishment. *)
 From YV Require Import lib.Base model.YWorld model.YProto gen.Consts gen.FsmGen model.YFraming
   model.YSession proof.SessionFraming proof.SessionC03 proof.SessionC03b proof.SessionC05
-  proof.SessionC02 proof.SessionC02b.
+  proof.SessionC02 proof.SessionC02b proof.SessionRP.
 
 (** every error close — in ANY world: any state, timers, connections, history — ends in Idle
     with the restart (IdleHold) timer armed one idle-hold period from now *)
@@ -67,12 +67,16 @@ Theorem C02_stays_up : forall (D : decoders) c H es w,
 Proof. exact alive_while_fed. Qed.
 Print Assumptions C02_stays_up.
 
-(** PARTIAL: the clause "the agent ALWAYS has a reconnection pending" is an invariant over all
-    reachable states ([C02_reconnect_pending_statement]); proved here are its ingredients (every
-    error path and every connection end re-arm the restart timer, its expiry connects, recovery
-    from any such state); that every reachable non-session state with automatic start allowed
-    has the timer armed, a connect-retry timer armed, or a close in progress is checked by the
-    exploration harness on every abstract state reached, not yet by a theorem. *)
+(** "The agent ALWAYS has a reconnection pending": along EVERY event sequence after start-up
+    (connection results and losses in any order and on any connection — including the
+    overlapping attempts of the known findings C12-* —, any bytes from the peer in any
+    segmentation, every timer expiry order, operator stop/start, API sends) and for every decoder
+    behaviour, whenever the operator has not stopped the peer ([w_auto]): the FSM is in a session
+    state on its tracked, connected transport; or it is Idle with the restart (IdleHold) timer
+    armed, or Idle while the close of the tracked connection is still in progress (its
+    completion arms the timer: C02_connection_end_rearms); or it is in Connect with the
+    connect-retry timer armed.  (Active is never entered.)  The invariant is [RP]
+    (proof/SessionRP.v); every FSM method, callback and driver event preserves it. *)
 Definition pending (w : world) : Prop :=
   match w_state w with
   | StIdle => t_dl (w_tih w) <> None \/
@@ -80,5 +84,24 @@ Definition pending (w : world) : Prop :=
   | StConnect | StActive => t_dl (w_tcr w) <> None
   | _ => True
   end.
-Definition C02_reconnect_pending_statement : Prop :=
-  forall (D : decoders) cf capl es, let w := run D (world0 cf capl) (EBoot :: es) in w_auto w = true -> pending w.
+Theorem C02_reconnect_pending : forall (D : decoders) cf capl es,
+  let w := run D (world0 cf capl) (EBoot :: es) in
+  (w_auto w = true -> pending w) /\ w_state w <> StActive /\
+  (match w_state w with StOpenSent | StOpenConfirm | StEstablished =>
+     exists c, w_proto w = Some c /\ conn_connected c w = true | _ => True end).
+Proof.
+  intros D cf capl es w. destruct (reconnect_pending D cf capl es) as [(H1 & H2 & H3 & H4) H5].
+  fold w in H1, H2, H3, H4, H5. split; [|split; [exact H3|]].
+  - intros Ha. specialize (H5 Ha). unfold SessionRP.pending, closing_tracked in H5. unfold pending.
+    destruct (w_state w); auto; contradiction.
+  - unfold tracked_ok in H2. destruct (w_state w); auto;
+      destruct (H2 eq_refl) as (c & A & B & _); exists c; auto.
+Qed.
+Print Assumptions C02_reconnect_pending.
+
+(** non-vacuity: a run that ends Idle with automatic restart allowed (session up, then the peer
+    resets the connection) — the premise of the invariant holds and the timer is what is pending *)
+Example C02_reconnect_pending_example :
+  let w := run D0 (world0 cf0 []) [EBoot; EConnOk 0; EData 0 open_frame; ELost 0] in
+  w_auto w = true /\ w_state w = StIdle /\ t_dl (w_tih w) <> None.
+Proof. vm_compute. repeat split; discriminate. Qed.
